@@ -189,7 +189,20 @@ def run(ctx):
                     bbad.append({'problem': 'slice function performs no access to its slice argument (analysis lost track)'})
                 nb = max(nb, 1)
                 ctx.count('slice_fns_checked_for_exact_extent:' + cfg)
-            if nb:
+            if len(runs) == 1 and r.ret is not None and not isinstance(r.ret, tm.T) and not r.abort:
+                # R-INIT: a function that builds its result through raw stores (MaybeUninit / Align16 temporaries) returns only initialised bytes
+                rty_ = F.body(it['key'])['locals'][0]
+                hid_ = set(hidden_offsets(F, rty_))
+                for (o, sz, lt) in leaves_plain(F, rty_):
+                    if o in hid_:
+                        continue
+                    c = r.ret.cells.get(o)
+                    covered = c is not None or any(oo < o + sz and o < oo + cs for oo, (cs, _t) in r.ret.cells.items() if isinstance(oo, int))
+                    if not covered or (c is not None and c[1].op == 'uninit'):
+                        bbad.append({'problem': 'byte offset %d..%d of the returned value is never initialised (typed read of a partially written temporary)' % (o, o + sz)})
+                        break
+                ctx.count('results_checked_initialised:' + cfg)
+            if nb or bbad:
                 ctx.count('memory_access_events:' + cfg, nb)
                 if bbad:
                     ctx.violation('R-BOUNDS', cfg, name, {'file': it['file'], 'line': it['line'], 'accesses': bbad[:4]})
